@@ -855,7 +855,15 @@ struct Hist {
 
 impl Hist {
     fn begin(&mut self, s: &mut Session) {
-        let line = format!("begin {} cap={} name={} sub={} uni={}", self.ctx.routine, self.ctx.cap, self.ctx.name, self.ctx.sub, if self.ctx.universe.is_empty() { "-".to_string() } else { self.ctx.universe.join("/") });
+        let line = format!(
+            "begin {} cap={} name={} sub={} uni={} jver=1 jmax={}",
+            self.ctx.routine,
+            self.ctx.cap,
+            self.ctx.name,
+            self.ctx.sub,
+            if self.ctx.universe.is_empty() { "-".to_string() } else { self.ctx.universe.join("/") },
+            cascette_client_storage::storage::segment::MAX_SEGMENTS
+        );
         s.line(&line, "ok");
         self.replay.push(line);
     }
